@@ -606,6 +606,26 @@ func runCmd(c *Cmd) {
 			e.Srcs = []string{"ref"}
 			emit(e)
 		}
+		// a seekable source (bytes.Reader): a decoder may not take shortcuts that only some readers offer
+		{
+			begin(c.Cid, 8, &Event{Ev: "dec", API: "DecodeBebop", Srcs: []string{"ref"}, Style: "seekable"})
+			e := &Event{Ev: "dec", Cid: c.Cid, M: 8, API: "DecodeBebop", Srcs: []string{"ref"}, Style: "seekable"}
+			br := bytes.NewReader(append(append([]byte{}, ref...), trailer...))
+			rec := newRecord(pi.Pid, c.Root)
+			e.Res, e.Msg, e.Big, e.Alloc = call(len(ref), func() error { return rec.DecodeBebop(br) })
+			e.Consumed = ip(len(ref) + len(trailer) - br.Len())
+			if e.Res == "nil" {
+				v, err := liftRecord(pi, c.Root, rec)
+				if err != nil {
+					e.Res = "harness-error"
+					e.Msg = err.Error()
+				} else {
+					e.Val = v
+					e.HasVal = true
+				}
+			}
+			emit(e)
+		}
 		// and DecodeBebop under fragmenting readers (the skip of unknown fields must not depend on full reads)
 		for i, pat := range [][]int{{1}, {2}, {3, 1}, {7, 2}} {
 			m := 2 + i
